@@ -18,6 +18,9 @@ TABLES = [
     # an optional keyword between mandatory ones listed before an overlapping entry; trailing optional numeric keywords; one header, two entries
     [b"[:SOURce]:VOLTage[:LEVel]:TRIGgered[:AMPLitude]", b"[:SOURce]:VOLTage[:LEVel][:IMMediate][:AMPLitude]", b"[:SOURce]:VOLTage:PROTection[:LEVel]",
      b"TRIGger#[:SEQuence#][:LEVel#]", b"OUTPut[:STATe]", b"OUTPut#[:STATe]", b"*WAI"],
+    # keywords with a digit or an underscore in the capital part (the short form ends where the lower-case letters begin), next to
+    # entries that spell only the letters before it
+    [b"SOURce:BB:W3GPp:STATe", b"SOURce:BB:W:STATe", b"SYSTem:COMMunicate:RS232:BAUD", b"SYSTem:COMMunicate:RS:BAUD?", b"OUT_Aux:LEVel", b"OUTPut:LEVel?", b"CH1x:ON", b"*TST?"],
 ]
 HEADS = {
     0: [b"TEST:A?", b"test:a?", b":TEST:B?", b"B?", b"A?", b"SUB:C?", b"C?", b"D", b"TEST:SUB:D", b":TEST:SUB:C?", b"*IDN?", b"*idn?", b"*RST", b"II", b"ii", b"SYST:ERR?", b"SYSTEM:ERROR:NEXT?", b"ERR?", b"NEXT?", b"FOO", b"FOO:BAR?", b"TEST:A", b"TES:A?", b"*IDN"],
@@ -27,6 +30,9 @@ HEADS = {
     4: [b"A", b"B", b"C", b"D", b":A", b"A:B", b":A:B", b"A:B:C", b"A:B:C:D", b"*X", b"E", b"a:b", b"c", b"d"],
     5: [b"VOLT", b":VOLTage", b"VOLT:LEV", b"LEV", b"VOLT:TRIG", b"VOLT:LEV:TRIG:AMPL", b"SOUR:VOLT", b"VOLT:IMM", b"VOLT:LEV:IMM:AMPL", b"VOLT:PROT", b"PROT:LEV", b"TRIG", b"IMM", b"AMPL",
         b"TRIG2", b"TRIG", b"TRIG2:SEQ3", b"TRIG2:LEV4", b"TRIG1:SEQ2:LEV3", b"SEQ5", b"LEV6", b"OUTP", b"OUTP2", b"OUTP:STAT", b"OUTP4:STAT", b"STAT", b"*WAI", b"VOLT:FOO"],
+    6: [b"SOUR:BB:W3GP:STAT", b"SOUR:BB:W:STAT", b"SOUR:BB:W3GPP:STAT", b"SOUR:BB:W3:STAT", b"sour:bb:w3gp:stat", b"BB:W3GP:STAT", b"W:STAT", b"W3GP:STAT", b"STAT", b"SYST:COMM:RS232:BAUD",
+        b"SYST:COMM:RS:BAUD", b"SYST:COMM:RS:BAUD?", b"RS232:BAUD", b"RS:BAUD", b"BAUD", b"OUT_A:LEV", b"OUT:LEV", b"OUT_AUX:LEV", b"out_a:lev", b"OUT:LEV?", b"OUTP:LEV?", b"OUT_:LEV",
+        b"CH1:ON", b"CH:ON", b"CH1X:ON", b"CH1x:on", b"ON", b"*TST?", b":SOUR:BB:W3GP:STAT", b":OUT_A:LEV"],
 }
 
 
